@@ -33,6 +33,9 @@ pub const V12B: u64 = 12; // second-level spend of T12:1
 pub const D2: u64 = 13; // double-spend of the other funding input 0.1 (independent of D)
 pub const UC: u64 = 14; // counterparty commitment (no HTLC) paying us a to_remote output
 pub const SC: u64 = 15; // sweep of our to_remote output of UC
+pub const UR: u64 = 16; // an OLD (revoked) counterparty commitment, number 5, no HTLC (breach)
+pub const SR: u64 = 17; // sweep of our to_remote output of UR
+pub const JR: u64 = 18; // justice spend of the counterparty's to_local output of UR
 pub const X0: u64 = 20; // unrelated transactions X0..X0+9
 
 /// Deliver a block connection the way the real front end does: compact proof, or — when requested, or
@@ -196,6 +199,19 @@ impl World {
             .transaction
             .clone();
         let uc_our = uc.output.iter().position(|o| o.value.to_sat() == uc_to_holder).expect("to_remote output") as u32;
+        let old_point = lightning_signer::util::test_utils::key::make_test_pubkey(13);
+        let (ur_to_holder, ur_to_cp) = (1_200_000u64, 1_780_000u64);
+        let ur = node
+            .with_channel(&channel_id, |chan| Ok(chan.make_counterparty_commitment_tx(&old_point, 5, feerate, ur_to_holder, ur_to_cp, vec![])))
+            .unwrap()
+            .trust()
+            .built_transaction()
+            .transaction
+            .clone();
+        let ur_our = ur.output.iter().position(|o| o.value.to_sat() == ur_to_holder).expect("to_remote output") as u32;
+        let ur_local = ur.output.iter().position(|o| o.value.to_sat() == ur_to_cp).expect("to_local output") as u32;
+        let sr = mk_tx(vec![OutPoint::new(ur.compute_txid(), ur_our)], 1, 25);
+        let jr = mk_tx(vec![OutPoint::new(ur.compute_txid(), ur_local)], 1, 26);
         let secp_ctx = lightning_signer::bitcoin::secp256k1::Secp256k1::signing_only();
         let node_ctx = TestNodeContext { node: node.clone(), secp_ctx };
         let counterparty_keys = make_test_counterparty_keys(&node_ctx, &channel_id, setup.channel_value_sat);
@@ -216,6 +232,9 @@ impl World {
         txs.insert(U, u);
         txs.insert(SC, mk_tx(vec![OutPoint::new(uc.compute_txid(), uc_our)], 1, 24));
         txs.insert(UC, uc);
+        txs.insert(UR, ur);
+        txs.insert(SR, sr);
+        txs.insert(JR, jr);
         txs.insert(S, mk_tx(vec![OutPoint::new(utxid, our)], 1, 15));
         let t1 = mk_tx(vec![OutPoint::new(utxid, h1)], 1, 16);
         let t2 = mk_tx(vec![OutPoint::new(utxid, h2)], 1, 17);
@@ -236,7 +255,7 @@ impl World {
             ids.insert(t.compute_txid(), *k);
         }
         let base_height = node.get_tracker().height();
-        World { node, channel_id, funding_outpoint, txs, ids, blocks: vec![], cb: 0, base_height, filter_false_positives: 0, built: BTreeMap::from([(U, (our, vec![h1.min(h2), h1.max(h2)])), (UC, (uc_our, vec![]))]), ctype: ct.to_string() }
+        World { node, channel_id, funding_outpoint, txs, ids, blocks: vec![], cb: 0, base_height, filter_false_positives: 0, built: BTreeMap::from([(U, (our, vec![h1.min(h2), h1.max(h2)])), (UC, (uc_our, vec![])), (UR, (ur_our, vec![ur_local]))]), ctype: ct.to_string() }
     }
 
     /// tx tokens `T<id>:<inputs>:<nOut>:<kind>`; the kind of the two closing transactions comes from
@@ -252,22 +271,15 @@ impl World {
         }
         let built: &'static BTreeMap<u64, String> = Box::leak(Box::new({
             let w = World::new_typed(ct);
+            // kind of the closing transactions = what the commitment decoder must answer for the transactions
+            // the harness built (our output index, HTLC output indices in output order); the real decoder's answer
+            // is compared with it after every block that confirms one of them (`our-output-not-recognised`)
             let mut kinds: BTreeMap<u64, String> = BTreeMap::new();
-            for id in [M, U, UC] {
-                let mut p = World::new_typed(ct);
-                assert!(matches!(p.add_block(&[F], false), StepResult::Ok));
-                assert!(matches!(p.add_block(&[id], false), StepResult::Ok));
-                let st = p.state_json();
-                let kind = if !st["unilateral_closing_height"].is_null() {
-                    let co = &st["closing_outpoints"];
-                    let our = if co["our_output"].is_null() { "-".to_string() } else { co["our_output"][0].to_string() };
-                    let hs: Vec<String> = co["htlc_outputs"].as_array().unwrap().iter().map(|x| x.to_string()).collect();
-                    format!("c{}/{}", our, if hs.is_empty() { "-".into() } else { hs.join(",") })
-                } else {
-                    assert!(!st["mutual_closing_height"].is_null());
-                    "p".to_string()
-                };
-                kinds.insert(id, kind);
+            kinds.insert(M, "p".to_string());
+            for id in [U, UC, UR] {
+                let (our, hs) = w.built[&id].clone();
+                let hs: Vec<String> = hs.iter().map(|x| x.to_string()).collect();
+                kinds.insert(id, format!("c{}/{}", our, if hs.is_empty() { "-".into() } else { hs.join(",") }));
             }
             let mut m = BTreeMap::new();
             for (k, t) in &w.txs {
